@@ -1744,15 +1744,25 @@ impl ExternalSortExec {
                     run_indices[run_idx] += 1;
 
                     // Check if current buffer is exhausted
-                    if let Some(ref batch) = run_buffers[run_idx] {
-                        if run_indices[run_idx] >= batch.num_rows() {
-                            // Try to load next batch from this run
-                            if let Some(next_batch) = run_iterators[run_idx].next() {
-                                run_buffers[run_idx] = Some(next_batch?);
-                                run_indices[run_idx] = 0;
-                            } else {
-                                run_buffers[run_idx] = None;
-                            }
+                    let exhausted = run_buffers[run_idx]
+                        .as_ref()
+                        .map(|batch| run_indices[run_idx] >= batch.num_rows())
+                        .unwrap_or(false);
+                    if exhausted {
+                        // `output_rows` holds row indices relative to the buffers that
+                        // are loaded right now: emit them before this buffer is
+                        // replaced or dropped, otherwise they go stale.
+                        if !output_rows.is_empty() {
+                            let batch = self.build_merged_batch(&run_buffers, &output_rows)?;
+                            result_batches.push(batch);
+                            output_rows.clear();
+                        }
+                        // Try to load next batch from this run
+                        if let Some(next_batch) = run_iterators[run_idx].next() {
+                            run_buffers[run_idx] = Some(next_batch?);
+                            run_indices[run_idx] = 0;
+                        } else {
+                            run_buffers[run_idx] = None;
                         }
                     }
 
@@ -1768,9 +1778,8 @@ impl ExternalSortExec {
 
         // Flush remaining output
         if !output_rows.is_empty() {
-            // For the final batch, we need to reload any exhausted buffers
-            // that are referenced in output_rows
-            let batch = self.build_merged_batch_final(&runs, &output_rows, buffer_rows)?;
+            // Every pending reference is to a live buffer (see the flush above).
+            let batch = self.build_merged_batch(&run_buffers, &output_rows)?;
             result_batches.push(batch);
         }
 
@@ -1812,72 +1821,6 @@ impl ExternalSortExec {
                             compute::take(&taken, &UInt32Array::from(vec![i as u32]), None)?;
                         output_columns[col_idx].push((*out_idx, single));
                     }
-                }
-            }
-        }
-
-        // Sort and concatenate columns
-        let mut final_columns: Vec<ArrayRef> = Vec::new();
-        for col_parts in output_columns {
-            let mut sorted_parts = col_parts;
-            sorted_parts.sort_by_key(|(idx, _)| *idx);
-            let arrays: Vec<&dyn arrow::array::Array> =
-                sorted_parts.iter().map(|(_, arr)| arr.as_ref()).collect();
-            if arrays.is_empty() {
-                final_columns.push(arrow::array::new_null_array(
-                    self.schema.field(final_columns.len()).data_type(),
-                    rows.len(),
-                ));
-            } else {
-                final_columns.push(compute::concat(&arrays)?);
-            }
-        }
-
-        RecordBatch::try_new(self.schema.clone(), final_columns).map_err(Into::into)
-    }
-
-    /// Build final merged batch, reloading data from files if needed
-    fn build_merged_batch_final(
-        &self,
-        runs: &[PathBuf],
-        rows: &[(usize, usize)],
-        _buffer_rows: usize,
-    ) -> Result<RecordBatch> {
-        if rows.is_empty() {
-            return Ok(RecordBatch::new_empty(self.schema.clone()));
-        }
-
-        // For the final batch, we may need to re-read some runs
-        // Group by run and load only what we need
-        let mut run_row_groups: HashMap<usize, Vec<(usize, usize)>> = HashMap::new();
-        for (output_idx, &(run_idx, row_idx)) in rows.iter().enumerate() {
-            run_row_groups
-                .entry(run_idx)
-                .or_default()
-                .push((output_idx, row_idx));
-        }
-
-        let num_cols = self.schema.fields().len();
-        let mut output_columns: Vec<Vec<(usize, ArrayRef)>> = vec![Vec::new(); num_cols];
-
-        for (run_idx, row_list) in run_row_groups {
-            // Read the run
-            let batches = read_parquet(&runs[run_idx])?;
-            if batches.is_empty() {
-                continue;
-            }
-
-            // Concatenate all batches from this run
-            let combined = compute::concat_batches(&batches[0].schema(), &batches)?;
-
-            let take_indices: Vec<u32> = row_list.iter().map(|(_, r)| *r as u32).collect();
-            let indices_arr = UInt32Array::from(take_indices);
-
-            for col_idx in 0..num_cols.min(combined.num_columns()) {
-                let taken = compute::take(combined.column(col_idx), &indices_arr, None)?;
-                for (i, (out_idx, _)) in row_list.iter().enumerate() {
-                    let single = compute::take(&taken, &UInt32Array::from(vec![i as u32]), None)?;
-                    output_columns[col_idx].push((*out_idx, single));
                 }
             }
         }
